@@ -75,7 +75,7 @@ def required(tier):
               'scale:tiny': 50, 'scale:huge': 50, 'scale:extreme': 50, 'tail:scaled': 100, 'tail:last': 50,
               'call:refresh': 1000, 'call:cached': 1000, 'call:cached:period<=0': 200, 'call:refresh:later-period': 200,
               'zero-variance-judged': 50, 'twin:imag-replaced': 20, 'twin:real-replaced': 20,
-              'clip:top-reached': 200, 'clip:bottom-reached': 200})
+              'clip:top-reached': 200, 'clip:bottom-reached': 200, 'complex-api:real-dtype-input': 100})
     return {'buckets': b,
             'counters': {'calls': 8000, 'elements_decided_exactly': 2_000_000, 'elements_tie_or_band': 100,
                          'monotone_pairs': 2_000_000, 'cache_checks': 1000},
@@ -160,6 +160,11 @@ def gen_cases(seed, tier):
                     if N < nn:
                         p['tail'] = str(common.pick(rng, ['none', 'scaled', 'scaled', 'last']))
                 call['parts'].append(p)
+            if cx and rng.random() < 0.12:
+                # a complex quantiser handed a REAL-dtype array: the imaginary part is identically zero
+                call['real_dtype'] = True
+                call['parts'][1] = dict(call['parts'][1], dist='const', loc=0.0)
+                call['parts'][1].pop('tail', None)
             r = rng.random()
             if api in ('real', 'complex') and r < 0.3:
                 # a custom deviation of the order of the data deviation keeps the output resolved
@@ -500,7 +505,11 @@ def run_case(c, R):
         ncall += 1
         R.count('calls')
         cu = call.get('custom')
-        if cx:
+        if cx and call.get('real_dtype'):
+            R.bucket('complex-api:real-dtype-input')
+            x = parts[0].copy()
+            x0 = x.copy()
+        elif cx:
             x = np.empty(parts[0].shape, dtype=np.complex128)
             x.real, x.imag = parts[0], parts[1]
             x0 = x.copy()
@@ -586,7 +595,7 @@ def run_case(c, R):
             other = make_part(dict(call['parts'][j], seed=call['parts'][j]['seed'] ^ 0x5a5a5, dist='gauss',
                                    loc=-3.0 * call['parts'][j]['loc'] + call['parts'][j]['scale'],
                                    scale=7.0 * call['parts'][j]['scale']), call['n'], call['cols'], N)
-            x2 = x0.copy()
+            x2 = x0.astype(np.complex128)          # (x0 may be a real-dtype array)
             if j == 1:
                 x2.imag = other
             else:
